@@ -262,6 +262,20 @@ func (ws *wstate) classify(app *fiber.App, ci int, tbl []entry, mi, pi int, ref 
 			}
 		}
 	}
+	if ov != 0 && effect == "reruns-same-entry" && ob >= 0 {
+		// an entry that ran twice after an override: once as a handler MERGED into the route object of an earlier entry
+		// with the same path (Next() walks that handler list without re-matching) and once through its own route that
+		// matches the new path. Which of the two runs survives depends on the bucket layout (the cursor-reuse defect
+		// may skip the second one); the root cause of the extra run is the merge.
+		for mm := 0; mm < nMeth; mm++ {
+			for j := 0; j < ob; j++ {
+				if (ws.rt[ob][mm] != nil && ws.rt[j][mm] == ws.rt[ob][mm]) || (ws.mg[ob][mm] != nil && ws.rt[j][mm] == ws.mg[ob][mm]) {
+					return fmt.Sprintf("override-%s-runs-merged-handler", ovNamesShort[ov]),
+						"after the override a handler merged into the overriding route's handler list ran although its registration does not match the new method/path, and ran again through its own route: duplicate-path merging appended it to the overriding route's handler list, which Next() walks without re-matching"
+				}
+			}
+		}
+	}
 	if effect == "skips-later-entry" && e >= 0 && bucketMiss(ci, tbl[e], mK, pK) {
 		return fmt.Sprintf("%s pattern-class=%s at=dispatch", missName(ci, pK), patClass(tbl[e], cfgs[ci])),
 			"a route whose own matcher accepts the path never runs: the request path selects a bucket by its first 3 bytes (bucket 0 when shorter), the route was filed under the first 3 bytes of its constant prefix"
